@@ -817,8 +817,23 @@ udp_recv_cack(udp_ep *ep, udp_sp_msg *cack, const nng_sockaddr *sa)
 	nni_time  now;
 
 	if ((p = udp_find_pipe(ep, sa)) && (!p->closed)) {
-		if (p->peer != cack->us_type) {
-			udp_send_disc(ep, p, DISC_TYPE);
+		if ((p->peer != cack->us_type) || (cack->us_refresh == 0)) {
+			nni_aio *aio;
+			// We refuse the peer.  Dropping the pipe takes it out
+			// of ep->pipes, so the timer would never expire it: a
+			// dial that is still waiting for this connection has
+			// to be failed here (it would wait forever and never
+			// be retried), as udp_recv_disc does for a refusal by
+			// the peer.
+			if (ep->dialer && (p->state < PIPE_CONN_DONE) &&
+			    ((aio = nni_list_first(&ep->connaios)) != NULL)) {
+				nni_aio_list_remove(aio);
+				nni_aio_finish_error(aio,
+				    p->peer != cack->us_type ? NNG_EPROTO
+				                             : NNG_ECONNREFUSED);
+			}
+			udp_send_disc(ep, p,
+			    p->peer != cack->us_type ? DISC_TYPE : DISC_NEGO);
 			return;
 		}
 
@@ -826,10 +841,6 @@ udp_recv_cack(udp_ep *ep, udp_sp_msg *cack, const nng_sockaddr *sa)
 		p->sndmax = cack->us_recvmax;
 		p->peer   = cack->us_type;
 
-		if (cack->us_refresh == 0) {
-			udp_send_disc(ep, p, DISC_NEGO);
-			return;
-		}
 		// Always reset this, as dialers may have started with an
 		// unreasonably low value.
 		p->refresh = ep->refresh;
@@ -1556,9 +1567,12 @@ udp_ep_connect(void *arg, nni_aio *aio)
 		nni_aio_finish_error(aio, NNG_ECLOSED);
 		return;
 	}
-	if (!nni_list_empty(&ep->connaios)) {
+	if ((!nni_list_empty(&ep->connaios)) || nni_aio_busy(&ep->resaio)) {
 		// (only a connect that is still in progress makes us busy: a
-		// dialer must be able to connect again after its pipe is lost)
+		// dialer must be able to connect again after its pipe is lost.
+		// The address lookup of a connect that has just been failed
+		// or canceled may still be running: it cannot be started
+		// again before its callback has returned.)
 		nni_mtx_unlock(&ep->mtx);
 		nni_aio_finish_error(aio, NNG_EBUSY);
 		return;
